@@ -5,6 +5,7 @@ import ACModel.Driver.BaseDisc
 import ACModel.Driver.Chained
 import ACModel.Driver.Select
 import ACModel.Driver.Pipeline
+import ACModel.Driver.Multi
 /-
   acdriver: JSON-lines driver around the executable model and the specification predicates.
   One request per line on stdin, one response per line on stdout.
@@ -37,6 +38,7 @@ def dispatch (j : Json) : R Json := do
   | "disc.update" => DriverDisc.update j
   | "judge.C04" => DriverDisc.judgeC04 j
   | "judge.C05" => DriverDisc.judgeC05 j
+  | "multi.assemble" => DriverMulti.assembleReq j
   | o => throw s!"unknown request {o}"
 
 def handleLine (line : String) : String :=
